@@ -19,7 +19,13 @@
 //     two states with different hidden stream state are merged; the only other state of
 //     the real object, its line/column counter, is observed by check() in every state in
 //     which observing does not itself change the stream flags.
-// (b) engine E straight-line pass (this file): read everything, rewind to everything.
+//     Further explorers: hist_char_bytes (alphabet {a, '\n', 0xFF, 0x80}: bytes that are negative as char, 0xFF
+//     collides with eof after narrowing) and hist_*_prefix (the first operation also chooses how many characters,
+//     1 or 2, are read from the std stream with istream::get() *before* the parse stream is constructed on it;
+//     the model text is then the rest of the content and the offset value of positions is not examined -- the
+//     documentation does not say what it counts from -- only rewind/re-read equality, equality of positions taken
+//     at the same index, and line/column relative to where the parse stream started).
+// (b) engine E straight-line pass (C12_straight.cpp): read everything, rewind to everything; all byte values.
 // (c) fault enumeration: C12_fault.cpp.   (d) error texts: C12_errtext.cpp.
 #include "C12_common.hpp"
 
@@ -35,13 +41,15 @@ namespace
 {
 enum kind
 {
-  CHOOSE_TEXT = 1, // a = text number
+  CHOOSE_TEXT = 1, // a = text number, b = number of characters read from the std stream before the parse stream is built
   GET_CHAR,        // a = 0: get_char, 1: get_char_error
   GET_POS,         // a = slot
   SET_POS          // a = slot
 };
 
 int MAXLEN = 3;
+int ALPHABET = 0;        // see letter() in C12_common.hpp
+int SKIP_MIN = 0, SKIP_MAX = 0;
 constexpr int NSLOTS = 3;
 
 template <class Ch> struct stream_sys
@@ -54,7 +62,8 @@ template <class Ch> struct stream_sys
 
   std::unique_ptr<string_world<Ch>> w;
   int text_no = -1;
-  std::basic_string<Ch> text;
+  std::size_t skip = 0;       // characters consumed from the std stream before the parse stream existed
+  std::basic_string<Ch> text; // what the parse stream reads: the content after those characters
   std::size_t index = 0;
   bool failed_read = false; // a get_char at end of input happened since the last get/set_position
   std::optional<saved> slot[NSLOTS];
@@ -66,7 +75,9 @@ template <class Ch> struct stream_sys
     {
       int const n = texts_upto(MAXLEN);
       for (int t = 0; t < n; ++t)
-        r.push_back(op{CHOOSE_TEXT, t, 0, 0, 0});
+        for (int k = SKIP_MIN; k <= SKIP_MAX; ++k)
+          if (static_cast<std::size_t>(k) <= text_by_number<Ch>(ALPHABET, t).size())
+            r.push_back(op{CHOOSE_TEXT, t, k, 0, 0});
       return r;
     }
     r.push_back(op{GET_CHAR, 0, 0, 0, 0});
@@ -84,7 +95,8 @@ template <class Ch> struct stream_sys
     switch (o.k)
     {
     case CHOOSE_TEXT:
-      return std::string("stream<") + cname<Ch>::v + ">(" + show_text(text_by_number<Ch>(0, o.a)) + ")";
+      return std::string("stream<") + cname<Ch>::v + ">(" + show_text(text_by_number<Ch>(ALPHABET, o.a)) +
+             (o.b ? ", built after " + std::to_string(o.b) + " istream::get()" : std::string()) + ")";
     case GET_CHAR:
       return o.a == 0 ? "get_char" : "get_char_error";
     case GET_POS:
@@ -103,10 +115,14 @@ template <class Ch> struct stream_sys
       switch (o.k)
       {
       case CHOOSE_TEXT:
+      {
         text_no = o.a;
-        text = text_by_number<Ch>(0, o.a);
-        w = std::make_unique<string_world<Ch>>(text);
+        skip = static_cast<std::size_t>(o.b);
+        std::basic_string<Ch> const full = text_by_number<Ch>(ALPHABET, o.a);
+        text = full.substr(skip);
+        w = std::make_unique<string_world<Ch>>(full, skip);
         break;
+      }
       case GET_CHAR:
       {
         fcppt::optional::object<Ch> got;
@@ -143,7 +159,7 @@ template <class Ch> struct stream_sys
       case GET_POS:
       {
         position<Ch> const p = fcppt::parse::get_position(w->ref());
-        std::string const d = position_diff(p, text, index);
+        std::string const d = position_diff(p, text, index, base());
         VRT_CHECK(d.empty(), "get_position" + t + (failed_read ? ":wrong_after_read_at_end" : ":wrong"), "at index %zu of %s: %s", index,
                   show_text(text).c_str(), d.c_str());
         // identical to every position observed earlier at the same index
@@ -173,21 +189,25 @@ template <class Ch> struct stream_sys
     }
   }
 
+  // offsets are compared with the model only for streams built on a fresh std stream (see position_diff)
+  long long base() const { return skip == 0 ? 0 : -1; }
+
   void check()
   {
     if (!w)
       return;
     VRT_CHECK(index <= text.size(), "harness:index", "model index out of range");
     long long const off = w->underlying_offset();
-    VRT_CHECK(off == static_cast<long long>(index), std::string("stream<") + cname<Ch>::v + ">:underlying_offset",
-              "the underlying buffer is at offset %lld, %zu characters were consumed/restored", off, index);
+    VRT_CHECK(off == static_cast<long long>(index + skip), std::string("stream<") + cname<Ch>::v + ">:underlying_offset",
+              "the underlying buffer is at offset %lld; %zu characters were read in advance, %zu were consumed/restored through the parse stream",
+              off, skip, index);
     if (!failed_read)
     {
       // observer: get_position (does not alter the stream unless the eof flag is set, which the model excludes here)
       try
       {
         position<Ch> const p = w->rs.st.get_position();
-        std::string const d = position_diff(p, text, index);
+        std::string const d = position_diff(p, text, index, base());
         VRT_CHECK(d.empty(), std::string("get_position<") + cname<Ch>::v + ">:wrong", "observer at index %zu of %s: %s", index,
                   show_text(text).c_str(), d.c_str());
       }
@@ -206,7 +226,7 @@ template <class Ch> struct stream_sys
     for (auto const &sl : slot)
       s.push_back(sl.has_value() ? static_cast<int>(sl->index) : -1);
     std::sort(s.begin(), s.end());
-    std::string r = "T" + std::to_string(text_no) + "|i" + std::to_string(index) + (failed_read ? "|F" : "|-");
+    std::string r = "T" + std::to_string(text_no) + "k" + std::to_string(skip) + "|i" + std::to_string(index) + (failed_read ? "|F" : "|-");
     for (int v : s)
       r += "|" + std::to_string(v);
     r += "|rd" + std::to_string(static_cast<int>(w->is.rdstate())) + "|o" + std::to_string(w->underlying_offset());
@@ -214,10 +234,14 @@ template <class Ch> struct stream_sys
   }
 };
 
-template <class Ch> void hist_shard(char const *name)
+// alphabet, [skip_min, skip_max], length caps per tier
+template <class Ch> void hist_shard(char const *name, int alphabet = 0, int skip_min = 0, int skip_max = 0, int len_quick = 4, int len_thorough = 6)
 {
-  vrt::shard(name, [name] {
-    MAXLEN = vrt::thorough() ? 6 : 4;
+  vrt::shard(name, [=] {
+    MAXLEN = vrt::thorough() ? len_thorough : len_quick;
+    ALPHABET = alphabet;
+    SKIP_MIN = skip_min;
+    SKIP_MAX = skip_max;
     vrt::hist::limits l;
     l.max_depth = 64;
     l.max_states = 12000000;
@@ -233,8 +257,14 @@ int main(int argc, char **argv)
   vrt::parse_args(argc, argv);
   hist_shard<char>("hist_char");
   hist_shard<wchar_t>("hist_wchar_t");
+  // bytes that are negative as char / collide with eof after narrowing
+  hist_shard<char>("hist_char_bytes", 2);
+  // parse stream built on a std stream from which 1 or 2 characters were already read
+  hist_shard<char>("hist_char_prefix", 0, 1, 2, 4, 5);
+  hist_shard<wchar_t>("hist_wchar_t_prefix", 0, 1, 2, 4, 5);
   c12::register_straight();
   c12::register_fault();
   c12::register_errtext();
+  c12::register_bytes();
   return vrt::run(argc, argv);
 }
